@@ -76,17 +76,19 @@ theorem sortInPlaceGlob_spec (a : List Int) :
     | _ :: _ :: _, h => simp at h; omega
   · exact ⟨(sortHeapGlob_spec a).2.1, (sortHeapGlob_spec a).2.2⟩
 
-/-- `ref_sort_unique_int`, `n ≥ 1`: `nunique` counts the strictly increasing list of the distinct inputs -/
-theorem uniqueInt_sorted_dedup (a : List Int) (ha : a ≠ []) :
+/-- `ref_sort_unique_int`, every `n` (0 included since the repair of the empty-list count): `nunique` counts the
+    strictly increasing list of the distinct inputs -/
+theorem uniqueInt_sorted_dedup (a : List Int) :
     (uniqueInt a).1 = (uniqueList a).length ∧ (uniqueList a).Pairwise (· < ·) ∧
-      ∀ x, x ∈ uniqueList a ↔ x ∈ a := uniqueInt_spec a ha
+      ∀ x, x ∈ uniqueList a ↔ x ∈ a := uniqueInt_spec a
 
-/-- `ref_sort_unique_int`, `n = 0`: the C reports `nunique = 1` (and writes nothing) -/
-theorem uniqueInt_empty : uniqueInt [] = (1, []) := uniqueInt_nil
+/-- `ref_sort_unique_int`, `n = 0`: no unique entry (before the repair in /repo the C reported `nunique = 1`, and
+    `ref_sort_same(0, ..)` compared `unique[0]` of two zero-length allocations) -/
+theorem uniqueInt_empty : uniqueInt [] = (0, []) := uniqueInt_nil
 
-/-- `ref_sort_same` (`n ≥ 1`) decides equality of the element sets -/
-theorem sortSame_iff_same_set (l0 l1 : List Int) (h0 : l0 ≠ []) (h1 : l1 ≠ []) :
-    sortSame l0 l1 = true ↔ ∀ x, x ∈ l0 ↔ x ∈ l1 := sortSame_spec l0 l1 h0 h1
+/-- `ref_sort_same` decides equality of the element sets, for every `n` -/
+theorem sortSame_iff_same_set (l0 l1 : List Int) :
+    sortSame l0 l1 = true ↔ ∀ x, x ∈ l0 ↔ x ∈ l1 := sortSame_spec l0 l1
 
 /-- `ref_sort_search_int` on a non-decreasing list (literal `mid = n>>1` start and `lower<mid<upper` loop):
     `ok` with a position holding the target if it is present, else `not_found` and `REF_EMPTY` -/
